@@ -178,7 +178,7 @@ def parse_scales(props):
     return scales
 
 
-def evaluate(scales, raw, scalers=None):
+def evaluate(scales, raw, scalers=None, with_magnitudes=False):
     """Exact evaluation of the dataflow graph; raw = list of Fractions (or None for DAQmx), scalers =
     {id: list of Fractions}.  Returns a list of Fractions."""
     memo = {}
@@ -227,7 +227,17 @@ def evaluate(scales, raw, scalers=None):
             raise ValueError(t)
         memo[i] = r
         return r
-    return val(len(scales) - 1)
+    out = val(len(scales) - 1)
+    if with_magnitudes:
+        # per element, the largest magnitude any intermediate value takes: floating-point evaluation is only
+        # accurate relative to that (catastrophic cancellation, e.g. Add(p, Subtract(p, x)) with |p| >> |x|)
+        n = len(out)
+        mags = [abs(x) for x in out]
+        for r in memo.values():
+            if len(r) == n:
+                mags = [max(m, abs(x)) for m, x in zip(mags, r)]
+        return out, mags
+    return out
 
 
 def channel_scales(w, path):
